@@ -127,7 +127,8 @@ def retryKind : Kind where
         let (ma, me, mc) := Model.Funcs.retry n script
         { st := st, tags := ["retry"], nontrivial := wantCalls ≥ 2, spec := clause
           model := some [.int ma, .atom (if me then "err" else "ok"), .int mc] }
-    | "retrydelay", .int n :: .int d :: sc :: rest, [.int attempts, .atom e, .int calls, stamps, ends] =>
+    | "retrydelay", .int n :: .int d :: sc :: rest, [.int attempts, .atom e, .int calls, stamps, ends]
+    | "retrydelayus", .int n :: .int d :: sc :: rest, [.int attempts, .atom e, .int calls, stamps, ends] =>
       let durs? : Option (List Int) := match rest with
         | [] => some []
         | [du] => du.ints?
